@@ -5,6 +5,7 @@ from ..core.loader import AnalysisError, own_nodes, norm, enclosing_stmt
 from ..core import astq
 from ..core.cfg import guards_of, ENTRY
 from . import common as K
+from . import flowalg
 from . import c07
 
 EXPLANATION = (
@@ -24,6 +25,7 @@ def run(ctx):
     ctx.each(_r07b_as, ctx, repo)
     ctx.each(r10d, ctx, repo)
     ctx.each(r10e, ctx, repo)
+    ctx.each(flowalg.process_prologue, ctx, repo, "R10f")
 
 
 def _r07b_as(ctx, repo):
